@@ -67,8 +67,23 @@ class FaultyBus(Bus):
         S, rng = self.S, self.rng
         e = rng.choice(ACCEPT_ERRNOS)
         self.settle()
-        S.sim.inject("accept", 1, e)
         t = rng.choice(["raw", "uds", "ws"])
+        if e in (errno.EMFILE, errno.ENFILE, errno.ENOBUFS, errno.ENOMEM) and rng.random() < 0.4:
+            # the shortage shows in the accept() call AFTER the one that took the connection (nothing is pending then: the
+            # kernel looks for a free descriptor first)
+            S.sim.inject("accept", 2, e)
+            c = self.new_peer(t)
+            self.note("accept-fails-behind-a-successful-one", errno.errorcode[e], t)
+            S.sig("accept-fault", errno.errorcode[e], t, "nothing-pending")
+            S.faults_active = True
+            S.stats["accept_faults"] += 1
+            self.settle()
+            S.request(c, "info")
+            self.settle()
+            if not c.accepted or c.closed:
+                S.v("conn/no-service-after-failed-accept", "%s after %s with nothing pending" % (t, errno.errorcode[e]))
+            return
+        S.sim.inject("accept", 1, e)
         lost = S.connect("lost%d" % len(S.conns), t)
         lost.may_close = True
         if e == errno.ECONNABORTED:
